@@ -21,6 +21,14 @@ func (s *Sys) execProof(imm *iavl.ImmutableTree, key []byte) string {
 	memP, memErr := it.GetMembershipProof(key)
 	nonP, nonErr := it.GetNonMembershipProof(key)
 	anyP, anyErr := it.GetProof(key)
+	if anyErr == nil && imm != nil {
+		// the tree's own check of the proof it just produced (committed versions only: on the
+		// embedded ImmutableTree of a working tree VerifyProof looks the value up through Get,
+		// which must not be used there)
+		if ok, err := it.VerifyProof(anyP, key); err != nil || !ok {
+			return "pf(verifyproof-rejects-own-proof)"
+		}
+	}
 	if imm != nil {
 		// MutableTree.GetVersionedProof(key, v) must give the proof of the COMMITTED version v,
 		// whatever the working tree holds at the moment
